@@ -185,26 +185,153 @@ def entries(tree_sexp):
 
 
 def leniency_kind(g, m):
-    """name of a spec-vs-parser difference on an ILL-formed source (never reported, only counted)"""
+    """name of a spec-vs-parser difference on an ILL-formed source (never reported, only counted).
+    recovery:*       = both reject the same broken entry but cut the Junk differently: the PEG keeps the longest valid
+                       prefix of an entry (and rejects an entry one of whose attributes is broken), the parser junks from
+                       the entry start (and keeps an entry up to its last good attribute); comment attachment follows;
+    lenient-syntax:* = the parser fully admits (part of) an entry the grammar rejects, no Junk on its side;
+    strict:*         = the converse."""
     ge, me = entries(g), entries(m)
     gj = sum(1 for e in ge if e[0] == "junk")
     mj = sum(1 for e in me if e[0] == "junk")
-    for a, b in zip(ge, me):
+    for k, (a, b) in enumerate(zip(ge, me)):
         if a != b:
-            if a[0] == "junk" and b[0] != "junk":
-                return "parser-admits-what-grammar-rejects(%s)" % b[0]
-            if a[0] != "junk" and b[0] == "junk":
-                return "parser-rejects-entry-the-grammar-keeps(%s)" % a[0]
+            nm = me[k + 1][0] if k + 1 < len(me) else None
+            ng = ge[k + 1][0] if k + 1 < len(ge) else None
+            if a[0] == "junk" and b[0] in ("msg", "term"):
+                if nm == "junk":
+                    return "recovery:parser-keeps-entry-up-to-last-good-part(%s)" % b[0]
+                return "lenient-syntax:parser-admits-entry-the-grammar-rejects(%s)" % b[0]
+            if a[0] in ("msg", "term") and b[0] == "junk":
+                if ng == "junk":
+                    return "recovery:grammar-keeps-valid-prefix-of-broken-entry(%s)" % a[0]
+                return "strict:parser-rejects-entry-the-grammar-admits(%s)" % a[0]
             if a[0] == "junk" and b[0] == "junk":
-                return "junk-extent-differs"
+                return "recovery:junk-extent-differs"
+            if a[0] in ("c", "gc", "rc") or b[0] in ("c", "gc", "rc"):
+                return "recovery:comment-attachment-follows-entry-recovery(%s/%s)" % (a[0], b[0])
+            if a[0] == b[0] and a[1] == b[1]:
+                if ng == "junk" and nm != "junk":
+                    return "lenient-syntax:parser-continues-entry-where-grammar-stops(%s)" % a[0]
+                if nm == "junk" and ng != "junk":
+                    return "strict:parser-stops-entry-where-grammar-continues(%s)" % a[0]
+                return "recovery:kept-part-of-entry-differs(%s)" % a[0]
             return "entry-differs(%s/%s)" % (a[0], b[0])
     return "entry-count-differs(junk %d/%d)" % (gj, mj)
+
+
+# ---------------------------------------------------------------------------------------------
+# G7: dedentation matrix - (first line kind) x (continuation line kind x indent)^k x context, exhaustively.
+# The expected tree is computed here from the abstract-syntax rule (a third, independent statement of it).
+
+LINE_KINDS = ("text", "pl", "pltext", "textpl", "blank0", "blanklo", "blankhi", "textsp")
+INDENTS = (1, 2, 4)
+
+
+def finish_pattern(raw):
+    """raw: list of ('t', str) | ('i', n) | ('p', sexp) -> list of ('t', str) | ('p', sexp)  (abstract-syntax rule)"""
+    ind = [x[1] for x in raw if x[0] == "i"]
+    common = min(ind) if ind else 0
+    out = []
+    for x in raw:
+        if x[0] == "i":
+            x = ("t", " " * (x[1] - common))
+        if x[0] == "t" and out and out[-1][0] == "t":
+            out[-1] = ("t", out[-1][1] + x[1])
+        else:
+            out.append(x)
+    if out and out[0][0] == "t":
+        out[0] = ("t", out[0][1].lstrip("\n"))
+    if out and out[-1][0] == "t":
+        out[-1] = ("t", out[-1][1].rstrip(" \n\r"))
+    return [x for x in out if x[0] == "p" or x[1]]
+
+
+def pat_sexp(els):
+    return "(pat%s)" % "".join(" (t %s)" % hexs(e[1]) if e[0] == "t" else " (p %s)" % e[1] for e in els)
+
+
+def matrix_pattern(first, lines, base):
+    """-> (list of source lines after the '=' / ']', raw elements).  `base` = extra indent of the context."""
+    src = [""]
+    raw = []
+    n = [0]
+
+    def pl():
+        n[0] += 1
+        return "{ $v%d }" % n[0], ("p", "(var %s)" % hexs("v%d" % n[0]))
+    if first == "text":
+        src[0] = " first"
+        raw.append(("t", "first"))
+    elif first == "pl":
+        t, e = pl()
+        src[0] = " " + t
+        raw.append(e)
+    pending_nl = 0
+    started = first != "none"
+    for kind, ind in lines:
+        if kind.startswith("blank"):
+            src.append({"blank0": "", "blanklo": " ", "blankhi": " " * (base + 7)}[kind])
+            pending_nl += 1
+            continue
+        pending_nl += 1
+        raw.append(("t", "\n" * pending_nl))
+        pending_nl = 0
+        raw.append(("i", base + ind))
+        line = " " * (base + ind)
+        if kind in ("text", "textsp", "textpl"):
+            line += "x y"
+            raw.append(("t", "x y"))
+        if kind in ("pl", "pltext", "textpl"):
+            t, e = pl()
+            line += t
+            raw.append(e)
+        if kind == "pltext":
+            line += " z"
+            raw.append(("t", " z"))
+        if kind == "textsp":
+            line += "  "
+            raw.append(("t", "  "))
+        src.append(line)
+        started = True
+    return src, raw
+
+
+def dedent_matrix(k):
+    """yields case lines (4 layouts each: LF/CRLF x final newline) for all line-kind tuples of length <= k"""
+    import itertools
+    cells = [(kind, ind) for kind in LINE_KINDS for ind in (INDENTS if not kind.startswith("blank") else (0,))]
+    for first in ("text", "pl", "none"):
+        for n in range(0, k + 1):
+            for lines in itertools.product(cells, repeat=n):
+                if first == "none" and not any(not c[0].startswith("blank") for c in lines):
+                    continue
+                for ctx in ("msg", "attr", "variant"):
+                    base = {"msg": 0, "attr": 2, "variant": 3}[ctx]
+                    src, raw = matrix_pattern(first, lines, base)
+                    # (blank lines after the last content line are not part of the pattern: `raw` has none)
+                    pat = pat_sexp(finish_pattern(raw))
+                    if ctx == "msg":
+                        body = ["m =" + src[0]] + src[1:]
+                        exp = "(res (msg %s %s (attrs) ~))" % (hexs("m"), pat)
+                    elif ctx == "attr":
+                        body = ["m = v", "  .a =" + src[0]] + src[1:]
+                        exp = "(res (msg %s (pat (t %s)) (attrs (a %s %s)) ~))" % (hexs("m"), hexs("v"), hexs("a"), pat)
+                    else:
+                        body = ["m = { $s ->", "   *[k]" + src[0]] + src[1:] + ["  }"]
+                        exp = "(res (msg %s (pat (p (sel (var %s) (v 1 (ki %s) %s)))) (attrs) ~))" % (
+                            hexs("m"), hexs("s"), hexs("k"), pat)
+                    lay = []
+                    for eol in ("\n", "\r\n"):
+                        for final in (True, False):
+                            lay.append(eol.join(body) + (eol if final else ""))
+                    yield "spec %s ~ g2:%s" % ("|".join(hx(x) for x in lay), hexs(exp))
 
 
 class C02(Base):
     ID = "C02"
     AREA = "spec"
-    LEMMA_FILES = ["FluentProofs/SpecLex.lean", "FluentProofs/SpecDedent.lean"]
+    LEMMA_FILES = ["FluentProofs/SpecLex.lean", "FluentProofs/SpecDedent.lean", "FluentProofs/SpecFuel.lean"]
     SEARCH_FACTOR = 2
     RULE = ("ref: the 68 reference trees of the repo (tests/fixtures/*.json + fixtures/benches/**/*.json) against the executable "
             "grammar and the parser; G2: random well-formed ASTs (all expression forms at all nesting positions, multi-line "
@@ -241,7 +368,7 @@ class C02(Base):
         chunks = sorted({c for c in chunks if len(c) < 600})
         for c in chunks:
             yield "spec " + hx(c)
-        n2 = 700 if quick else 6000
+        n2 = 3000 if quick else 15000
         nl = 8 if quick else 12
         pool = []
         for k in range(n2):
@@ -252,14 +379,16 @@ class C02(Base):
             yield "spec %s ~ g2:%s" % ("|".join(hx(s) for s, _ in lay), hexs(exp))
             if k < 3000:
                 pool.append(lay[rng.randrange(len(lay))][0])
-        n3 = 5000 if quick else 120000
+        for c in dedent_matrix(2 if quick else 3):
+            yield c
+        n3 = 15000 if quick else 120000
         mpool = pool + chunks
         for _ in range(n3):
             yield "spec " + hx(ftlgen.g3_mutate(rng, rng.choice(mpool), rng.choice([1, 1, 2, 3])))
         for base in rng.sample(chunks, min(len(chunks), 15 if quick else 300)):
             for p in ftlgen.g3_prefixes(base):
                 yield "spec " + hx(p)
-        n4 = 2000 if quick else 60000
+        n4 = 6000 if quick else 60000
         for _ in range(n4):
             yield "spec " + hx(ftlgen.g4_soup(rng, 14 if rng.random() < 0.9 else 40))
         if not quick:
